@@ -849,6 +849,7 @@ package allocator
 //@ lemma C11.noGhostReservation: forall a *Allocator, x string :: Inv(a) && a.sharingKeyForIP[x] != nil ==> (exists s string :: Holds(a, s, x))
 
 //@ func (*Allocator).CountersForPool
+//@   concurrent
 //@   requires a != nil && lockstate(a.countersMutex) == 0
 //@   ensures result == a.poolToCounters[name]
 //@   ensures lockstate(a.countersMutex) == 0
